@@ -56,6 +56,10 @@ def tags_of(beh):
             t.add("stage:%s" % a.get("kind"))
         else:
             t.add(k)
+        if k in ("Rebase", "CherryPick", "Amend", "MergeSquash", "Switch"):
+            # what happened just before: pending work? how many commits on each side?
+            t.add("%s:after:%s" % (k, beh[i - 1]["a"] if i else "-"))
+    t.add("ncommits:%d" % sum(1 for a in beh if a["a"] == "Commit"))
     # line-level ping-pong: a line whose "mod" chain alternates AI -> human -> AI
     cur = {}
     chain = {}
@@ -134,7 +138,7 @@ def validate(consts, results, workdir, chunk=400):
     plus the TLC results.  Runs with a harness error are skipped (reported separately)."""
     out = []
     tlc_results = []
-    ok = [(ev, info) for ev, info, err in results if err is None]
+    ok = [(ev, info) for ev, info, err in results if err is None and not info.get("divergent")]
     for ci in range(0, len(ok), chunk):
         part = ok[ci:ci + chunk]
         events = []
